@@ -140,6 +140,7 @@ def _homogeneity(chk, shapes, cls_name, name, owner):
     n = 0
     for p in chk.explore(fkey, run):
         if p.kind != "return":
+            chk.path_raised(fkey, p)
             continue
         n += 1
         g1, g2 = (to_expr(x) for x in p.value)
@@ -351,3 +352,7 @@ def run(chk):
     # _rescale contracts, centre setters and rounding-radius setters of the vertex-based classes (shared with C03)
     from . import c03
     c03.run(chk, bounded=False)
+    # bounded stand-in: read everything - assign through one setter - read everything, against a freshly constructed shape with
+    # the current vertices (a memoised value that the class invariant of the contracts does not know about shows up here)
+    from .bounded_c03 import run_bounded
+    run_bounded(chk, depth=1 if chk.bounded_tier == "quick" else 2, only_setters=True)
